@@ -4,11 +4,13 @@ package sched
 
 import (
 	"context"
+	"errors"
 	"fmt"
 	"strings"
 	"unsafe"
 
 	wire "github.com/jeroenrinzema/psql-wire"
+	"github.com/jackc/pgx/v5/pgtype"
 	"github.com/jeroenrinzema/psql-wire/pkg/verifshim/vsched"
 	"github.com/jeroenrinzema/psql-wire/pkg/verifshim/vsync"
 	"verif/engine/explore"
@@ -100,6 +102,33 @@ func connName(ctx context.Context) string {
 	return "?"
 }
 
+// yieldingText is a row value whose encoding passes a scheduling point: the connection's goroutine can
+// be interrupted while a DataRow frame is half built.
+type yieldingText string
+
+func (y yieldingText) TextValue() (pgtype.Text, error) {
+	vsched.Yield("mid-frame")
+	return pgtype.Text{String: string(y), Valid: true}, nil
+}
+
+// c16ParseRows is c16Parse with a statement that writes rows (two columns, the second one yields mid-frame).
+func c16ParseRows(l *c16Log) wire.ParseFn {
+	cols := wire.Columns{{Name: "a", Oid: 25}, {Name: "b", Oid: 25}}
+	return func(ctx context.Context, q string) (wire.PreparedStatements, error) {
+		cn := connName(ctx)
+		return wire.Prepared(wire.NewStatement(func(ctx context.Context, w wire.DataWriter, p []wire.Parameter) error {
+			sp := l.begin(cn, "statement")
+			defer l.finish(sp)
+			for i := 0; i < 2; i++ {
+				if err := w.Row([]any{"first", yieldingText("second")}); err != nil {
+					return err
+				}
+			}
+			return w.Complete("SELECT 2")
+		}, wire.WithColumns(cols))), nil
+	}
+}
+
 // c16Parse: parser and statement function contain explicit yield points so a handler is never atomic.
 func c16Parse(l *c16Log) wire.ParseFn {
 	return func(ctx context.Context, q string) (wire.PreparedStatements, error) {
@@ -124,6 +153,8 @@ type c16Conn struct {
 }
 
 type c16Spec struct {
+	acceptFault bool // the listener reports an Accept error while a connection is being served
+	midFrame    bool // the statement writes a row whose value yields to the scheduler while it is being encoded
 	name    string
 	conns   []c16Conn
 	closers int
@@ -147,6 +178,8 @@ func c16Specs() []c16Spec {
 		{name: "X6", conns: []c16Conn{{"c1", [][]byte{start, batch}}}, closers: 1, desc: "extended batch Parse/Bind/Execute/Sync + Close"},
 		{name: "X7", conns: []c16Conn{{"c1", [][]byte{start, pgproto.Cat(pgproto.Bind("", "nope", nil, nil, nil), pgproto.Execute("", 0), pgproto.Describe('S', ""), pgproto.Sync()), q}}}, closers: 1,
 			desc: "a failed extended message followed by discarded messages, a Sync and a Query + one Close (every admitted command must be released again)"},
+		{name: "X8", conns: []c16Conn{{"c1", [][]byte{start, q}}}, closers: 1, acceptFault: true,
+			desc: "the listener fails with an Accept error (Serve returns it) while a connection is inside a handler, then Close"},
 	}
 }
 
@@ -158,7 +191,11 @@ func c16Scenario(spec c16Spec) *Scenario {
 			vsync.WaitGroupMisuse = 0
 			body := func() {
 				memnet.Point = vsched.Point
-				srv, err := wire.NewServer(c16Parse(log), wire.Logger(harness.Quiet), wire.MessageBufferSize(1<<12))
+				parse := c16Parse(log)
+				if spec.midFrame {
+					parse = c16ParseRows(log)
+				}
+				srv, err := wire.NewServer(parse, wire.Logger(harness.Quiet), wire.MessageBufferSize(1<<12))
 				if err != nil {
 					panic(err)
 				}
@@ -178,6 +215,9 @@ func c16Scenario(spec c16Spec) *Scenario {
 							sc.Push(s)
 						}
 					})
+				}
+				if spec.acceptFault {
+					vsched.Go(func() { l.FailAccept(errors.New("accept: too many open files")) })
 				}
 				for i := 0; i < spec.closers; i++ {
 					vsched.Go(func() {
@@ -211,7 +251,7 @@ func c16Scenario(spec c16Spec) *Scenario {
 				if len(x.Panics) == 0 && !x.Deadlock && !x.StepLimit {
 					if !log.serveDone {
 						fail("serve-did-not-return", "Serve has not returned although the server was closed")
-					} else if log.serveErr != nil {
+					} else if log.serveErr != nil && !spec.acceptFault {
 						fail("serve-error", fmt.Sprintf("Serve returned %v, expected nil", log.serveErr))
 					}
 					if len(closes) != spec.closers+b2i(spec.secondClose) {
@@ -230,6 +270,11 @@ func c16Scenario(spec c16Spec) *Scenario {
 								fail("close-returned-during-handler", fmt.Sprintf("Close call #%d returned at @%d while %s %s was running (@%d..@%d)", ci+1, T, s.conn, s.kind, s.start, s.end))
 							}
 						}
+					}
+				}
+				for _, sc := range conns {
+					if _, err := pgproto.ParseBackend(sc.Output()); err != nil {
+						fail("malformed-backend-stream", fmt.Sprintf("connection %s received bytes that are not well-formed backend messages: %v", sc.Name, err))
 					}
 				}
 				if vsync.WaitGroupMisuse > 0 {
